@@ -279,4 +279,254 @@ Proof.
   apply in_map_iff in Hx as [y [E Hy]]. subst x. rewrite Forall_forall in IH. apply IH. exact Hy.
 Qed.
 
+
+(* symbols *)
+Definition wf_sym (d : symdecl) : bool :=
+  str_forallb legal_char (sd_name d) && wf_sort (sd_ret d)
+  && implb (sd_interp d) (is_simple cfg (sd_name d))
+  && implb (negb (sd_interp d) && sd_nullary d) (nonempty (sd_name d)).
+
+Definition sym_ptok (d : symdecl) : token := if sd_interp d then TSym (sd_name d) else name_tok (sd_name d).
+
+Definition head_psexp (env : list symdecl) (d : symdecl) : sexp :=
+  if needs_qualification env d then SList [SAtom (TRes "as"); SAtom (sym_ptok d); sort_psexp (sd_ret d)]
+  else SAtom (sym_ptok d).
+
+Lemma protect_interp : forall v s, protectName v s true = s.
+Proof. intros v s. unfold protectName. rewrite flag_interp. reflexivity. Qed.
+
+Lemma view_name : forall s, legal_symbol s -> nonempty s = true ->
+  (if isQuoted (protectName repaired s false) then inner (protectName repaired s false) else protectName repaired s false) = s.
+Proof.
+  intros s Hl Hne. destruct (protect_cases repaired s) as [E | (E & _)]; rewrite E.
+  - rewrite (isQuoted_in_bars s Hne). apply inner_in_bars.
+  - rewrite (isQuoted_legal_bare s Hl). reflexivity.
+Qed.
+
+Lemma render_sym : forall env d rest l, wf_sym d = true -> delim rest -> lexes cfg rest l ->
+  lexes cfg (symToString repaired env d +++ rest) (sexp_toks (head_psexp env d) ++ l).
+Proof.
+  intros env d rest l Hwf Hd Hr. unfold wf_sym in Hwf.
+  repeat (apply andb_true_iff in Hwf as [Hwf ?]).
+  rename Hwf into Hleg. rename H1 into Hsort. rename H0 into Hint. rename H into Hnon.
+  unfold symToString, disambiguateName, head_psexp, needs_qualification, sym_ptok.
+  destruct (sd_interp d) eqn:Ei.
+  - (* a theory symbol: printed raw *)
+    rewrite protect_interp. rewrite orb_true_r. cbn [negb andb]. rewrite andb_false_r. cbn [sexp_toks app].
+    apply render_raw; [exact Hint|exact Hd|exact Hr].
+  - cbn [negb andb orb]. rewrite orb_false_r, andb_true_r.
+    destruct (sd_nullary d) eqn:En.
+    + cbn [negb andb]. cbn [negb andb implb] in Hnon.
+      cbn [v_view_key_bug repaired negb andb]. rewrite andb_false_r.
+      rewrite (view_name (sd_name d) Hleg Hnon).
+      unfold is_ambiguous.
+      destruct (negb (isKnownToUser (sd_name d)) || (2 <=? homonyms true env (sd_name d))).
+      * cbn [sexp_toks flat_map app]. rewrite !append_assoc. cbn [append].
+        apply step_lp; [exact Hok|]. rewrite <- Has.
+        match goal with |- lexes _ (String "a" (String "s" ?r)) _ => change (String "a" (String "s" r)) with ("as" +++ r) end.
+        apply step_word; [exact Hok|reflexivity| | |apply delim_stops_sym; apply delim_space|].
+        { apply (str_forallb_impl is_simple_char); [exact Hsub|]. vm_compute. reflexivity. }
+        { reflexivity. }
+        apply step_white; [exact Hspace|]. apply render_name; [exact Hleg|apply delim_space|]. cbn [append].
+        apply step_white; [exact Hspace|]. rewrite app_nil_r. rewrite <- app_assoc.
+        apply render_sort; [exact Hsort|apply delim_rp|]. cbn [app]. apply step_rp; [exact Hok|exact Hr].
+      * cbn [sexp_toks app]. apply render_name; assumption.
+    + cbn [negb andb]. cbn [sexp_toks app]. apply render_name; assumption.
+Qed.
+
+
+(* terms *)
+Definition opt_digits (o : option string) : bool := match o with None => true | Some d => all_digits d end.
+
+Fixpoint wf_term (t : term) : bool :=
+  match t with
+  | TApp d args => wf_sym d && (List.length args =? List.length (sd_args d)) && forallb wf_term args
+  | TNumC _ num den => all_digits num && opt_digits den
+  end.
+
+Fixpoint term_psexp (env : list symdecl) (t : term) : sexp :=
+  match t with
+  | TApp d args =>
+    match args with
+    | [] => head_psexp env d
+    | _ => SList (head_psexp env d :: map (term_psexp env) args)
+    end
+  | TNumC neg num None => num_sexp neg num
+  | TNumC neg num (Some den) => SList [sym_tok "/"; num_sexp neg num; SAtom (TNum den)]
+  end.
+
+Section term_induction.
+  Variable P : term -> Prop.
+  Hypothesis Happ : forall d args, Forall P args -> P (TApp d args).
+  Hypothesis Hnum : forall n num den, P (TNumC n num den).
+  Fixpoint term_ind2 (t : term) : P t :=
+    match t with
+    | TApp d args => Happ d args ((fix go (l : list term) : Forall P l :=
+                                     match l with [] => Forall_nil P | x :: r => Forall_cons x (term_ind2 x) (go r) end) args)
+    | TNumC n num den => Hnum n num den
+    end.
+End term_induction.
+
+Lemma render_minus : forall r l, lexes cfg r l -> lexes cfg (String "-"%char (String " "%char r)) (TSym "-" :: l).
+Proof.
+  intros r l H. rewrite <- Hminus. change (String "-"%char (String " "%char r)) with ("-" +++ String " "%char r).
+  apply step_word; [exact Hok|reflexivity| |reflexivity|apply delim_stops_sym; apply delim_space|].
+  - apply (str_forallb_impl is_simple_char); [exact Hsub|]. vm_compute. reflexivity.
+  - apply step_white; [exact Hspace|exact H].
+Qed.
+
+Lemma render_slash : forall r l, lexes cfg r l -> lexes cfg (String "/"%char (String " "%char r)) (TSym "/" :: l).
+Proof.
+  intros r l H. rewrite <- Hslash. change (String "/"%char (String " "%char r)) with ("/" +++ String " "%char r).
+  apply step_word; [exact Hok|reflexivity| |reflexivity|apply delim_stops_sym; apply delim_space|].
+  - apply (str_forallb_impl is_simple_char); [exact Hsub|]. vm_compute. reflexivity.
+  - apply step_white; [exact Hspace|exact H].
+Qed.
+
+Lemma render_digits : forall d rest l, all_digits d = true -> delim rest -> lexes cfg rest l ->
+  lexes cfg (d +++ rest) (TNum d :: l).
+Proof.
+  intros d rest l H Hd Hr. unfold all_digits in H. apply andb_true_iff in H as [H1 H2].
+  apply step_num; [exact Hok|exact H1|exact H2|apply delim_stops_num; exact Hd|exact Hr].
+Qed.
+
+(* (- num) or num, in front of a delimited rest *)
+Lemma render_num : forall neg num rest l, all_digits num = true -> delim rest -> lexes cfg rest l ->
+  lexes cfg ((if neg then "(- " +++ num +++ ")" else num) +++ rest) (sexp_toks (num_sexp neg num) ++ l).
+Proof.
+  intros neg num rest l H Hd Hr. unfold num_sexp. destruct neg.
+  - cbn [sexp_toks flat_map app sym_tok]. rewrite !append_assoc. cbn [append].
+    apply step_lp; [exact Hok|]. apply render_minus. apply render_digits; [exact H|apply delim_rp|].
+    apply step_rp; [exact Hok|exact Hr].
+  - cbn [sexp_toks app]. apply render_digits; assumption.
+Qed.
+
+Lemma render_term : forall env t, wf_term t = true -> forall rest l, delim rest -> lexes cfg rest l ->
+  lexes cfg (print_term repaired env t +++ rest) (sexp_toks (term_psexp env t) ++ l).
+Proof.
+  intros env.
+  apply (term_ind2 (fun t => wf_term t = true -> forall rest l, delim rest -> lexes cfg rest l ->
+                             lexes cfg (print_term repaired env t +++ rest) (sexp_toks (term_psexp env t) ++ l))).
+  - intros d args IH Hwf rest l Hd Hr. cbn [wf_term] in Hwf.
+    apply andb_true_iff in Hwf as [Hwf Hargs]. apply andb_true_iff in Hwf as [Hsym _].
+    destruct args as [|a r].
+    + cbn [print_term term_psexp]. apply render_sym; assumption.
+    + cbn [print_term term_psexp]. rewrite sexp_toks_cons_map. rewrite !append_assoc. cbn [append].
+      apply step_lp; [exact Hok|]. rewrite <- app_assoc.
+      apply render_sym; [exact Hsym| |].
+      * cbn [map]. rewrite concat_empty_cons. rewrite !append_assoc. cbn [append]. apply delim_space.
+      * apply (render_args term (print_term repaired env) (fun x => sexp_toks (term_psexp env x))); [|exact Hr].
+        apply (Forall_forallb_impl term wf_term); [|exact Hargs].
+        eapply Forall_impl; [|exact IH]. intros x Hx Hw. apply Hx. exact Hw.
+  - intros neg num den Hwf rest l Hd Hr. cbn [wf_term] in Hwf. apply andb_true_iff in Hwf as [Hn Hden].
+    destruct den as [den|].
+    + cbn [print_term term_psexp opt_digits] in *.
+      assert (E : (if neg then "(/ (- " +++ num +++ ") " +++ den +++ ")" else "(/ " +++ num +++ " " +++ den +++ ")")
+                  = "(/ " +++ (if neg then "(- " +++ num +++ ")" else num) +++ " " +++ den +++ ")").
+      { destruct neg; rewrite ?append_assoc; reflexivity. }
+      rewrite E. clear E. cbn [sexp_toks flat_map sym_tok]. rewrite !append_assoc. cbn [append app].
+      apply step_lp; [exact Hok|]. apply render_slash. rewrite app_nil_r. rewrite <- !app_assoc.
+      apply render_num; [exact Hn|apply delim_space|]. cbn [append app]. apply step_white; [exact Hspace|].
+      apply render_digits; [exact Hden|apply delim_rp|]. apply step_rp; [exact Hok|exact Hr].
+    + cbn [print_term term_psexp]. apply render_num; assumption.
+Qed.
+
+(* (3) the printed s-expression, with |x| normalised to x, is the term's specification *)
+Lemma norm_head_psexp : forall env d, norm_sexp (head_psexp env d) =
+  (if needs_qualification env d then SList [SAtom (TRes "as"); sym_tok (sd_name d); sort_sexp (sd_ret d)] else sym_tok (sd_name d)).
+Proof.
+  intros env d. unfold head_psexp. destruct (needs_qualification env d).
+  - cbn [norm_sexp map norm_token]. rewrite norm_sort_psexp. unfold sym_ptok, sym_tok.
+    destruct (sd_interp d); [reflexivity|]. rewrite norm_name_tok. reflexivity.
+  - cbn [norm_sexp]. unfold sym_ptok, sym_tok. destruct (sd_interp d); [reflexivity|]. rewrite norm_name_tok. reflexivity.
+Qed.
+
+Lemma nullary_length : forall d, sd_nullary d = true -> List.length (sd_args d) = 0.
+Proof. intros d H. unfold sd_nullary in H. destruct (sd_args d); [reflexivity|discriminate]. Qed.
+
+Lemma norm_term_psexp : forall env t, wf_term t = true -> norm_sexp (term_psexp env t) = term_sexp env t.
+Proof.
+  intros env.
+  apply (term_ind2 (fun t => wf_term t = true -> norm_sexp (term_psexp env t) = term_sexp env t)).
+  - intros d args IH Hwf. cbn [wf_term] in Hwf.
+    apply andb_true_iff in Hwf as [Hwf Hargs]. apply andb_true_iff in Hwf as [_ Hlen]. apply Nat.eqb_eq in Hlen.
+    destruct args as [|a r].
+    + cbn [term_psexp term_sexp]. apply norm_head_psexp.
+    + cbn [term_psexp term_sexp]. cbn [norm_sexp map]. rewrite norm_head_psexp.
+      assert (Hq : needs_qualification env d = false).
+      { unfold needs_qualification. destruct (sd_nullary d) eqn:En; [|reflexivity].
+        apply nullary_length in En. simpl in Hlen. lia. }
+      rewrite Hq. f_equal. f_equal.
+      assert (Hall : Forall (fun x => norm_sexp (term_psexp env x) = term_sexp env x) (a :: r)).
+      { apply (Forall_forallb_impl term wf_term); [|exact Hargs]. exact IH. }
+      inversion Hall; subst. rewrite H1. f_equal. rewrite map_map. apply map_ext_Forall. exact H2.
+  - intros neg num den _. destruct den; cbn [term_psexp term_sexp]; unfold num_sexp; destruct neg; reflexivity.
+Qed.
+
+Lemma atoms_head_psexp : forall env d, atoms_ok (head_psexp env d) = true.
+Proof.
+  intros env d. unfold head_psexp, sym_ptok. destruct (needs_qualification env d); cbn [atoms_ok forallb atom_tokenb].
+  - rewrite atoms_sort_psexp. destruct (sd_interp d); [reflexivity|]. rewrite atoms_name_tok. reflexivity.
+  - destruct (sd_interp d); [reflexivity|apply atoms_name_tok].
+Qed.
+
+Lemma atoms_term_psexp : forall env t, atoms_ok (term_psexp env t) = true.
+Proof.
+  intros env.
+  apply (term_ind2 (fun t => atoms_ok (term_psexp env t) = true)).
+  - intros d args IH. cbn [term_psexp]. destruct args as [|a r]; [apply atoms_head_psexp|].
+    cbn [atoms_ok forallb]. rewrite atoms_head_psexp. cbn [andb]. rewrite forallb_forall. intros x Hx.
+    apply in_map_iff in Hx as [y [E Hy]]. subst x. rewrite Forall_forall in IH. apply IH. exact Hy.
+  - intros neg num den. destruct den; cbn [term_psexp]; unfold num_sexp; destruct neg; reflexivity.
+Qed.
+
+(* the theorem for one lexer *)
+Theorem term_roundtrip_cfg : forall env t, wf_term t = true ->
+  exists e, read_sexps cfg (print_term repaired env t) = Some [e] /\ norm_sexp e = term_sexp env t.
+Proof.
+  intros env t Hwf. exists (term_psexp env t). split; [|apply norm_term_psexp; exact Hwf].
+  apply read_from_lexes; [apply atoms_term_psexp|].
+  pose proof (render_term env t Hwf EmptyString [] I (lexes_nil cfg)) as H.
+  rewrite app_empty_r, app_nil_r in H. exact H.
+Qed.
+
+Theorem sort_roundtrip_cfg : forall s, wf_sort s = true ->
+  exists e, read_sexps cfg (sortToString repaired s) = Some [e] /\ norm_sexp e = sort_sexp s.
+Proof.
+  intros s Hwf. exists (sort_psexp s). split; [|apply norm_sort_psexp].
+  apply read_from_lexes; [apply atoms_sort_psexp|].
+  pose proof (render_sort s Hwf EmptyString [] I (lexes_nil cfg)) as H.
+  rewrite app_empty_r, app_nil_r in H. exact H.
+Qed.
+
 End Render.
+
+(* ---------------------------------------------------------------------------------------------
+   both lexers *)
+Lemma repaired_covers_std : forall s, mem_str s (lc_reserved std_cfg) = true -> mem_str s (v_table repaired) = true.
+Proof.
+  intros s H. apply repaired_table_covers. apply mem_str_In. apply in_or_app. left. apply mem_str_In. exact H.
+Qed.
+
+Lemma repaired_covers_osmt : forall s, mem_str s (lc_reserved osmt_cfg) = true -> mem_str s (v_table repaired) = true.
+Proof.
+  intros s H. apply repaired_table_covers. apply mem_str_In. apply in_or_app. right. apply mem_str_In. exact H.
+Qed.
+
+Theorem term_roundtrip_std : forall env t, wf_term std_cfg t = true ->
+  exists e, read_sexps std_cfg (print_term repaired env t) = Some [e] /\ norm_sexp e = term_sexp env t.
+Proof.
+  apply (term_roundtrip_cfg std_cfg std_cfg_ok simple_sub_std repaired_covers_std); reflexivity.
+Qed.
+
+Theorem term_roundtrip_osmt : forall env t, wf_term osmt_cfg t = true ->
+  exists e, read_sexps osmt_cfg (print_term repaired env t) = Some [e] /\ norm_sexp e = term_sexp env t.
+Proof.
+  apply (term_roundtrip_cfg osmt_cfg osmt_cfg_ok simple_sub_osmt repaired_covers_osmt); reflexivity.
+Qed.
+
+Theorem sort_roundtrip_std : forall s, wf_sort s = true ->
+  exists e, read_sexps std_cfg (sortToString repaired s) = Some [e] /\ norm_sexp e = sort_sexp s.
+Proof.
+  apply (sort_roundtrip_cfg std_cfg std_cfg_ok simple_sub_std repaired_covers_std); reflexivity.
+Qed.
